@@ -62,6 +62,9 @@ def gen_cases(tier, seed):
                         s['mode'] = how
                         s['trigger'] = 'event'
                         s['cancel_msg'] = rng.choice(msgs)
+                        if how == 'with_exc':
+                            # any non-interrupt exception: an ordinary Exception, SystemExit, GeneratorExit, a BaseException subclass
+                            s['with_exc_type'] = rng.choice([None, None, 'systemexit', 'generatorexit', 'base'])
                         s['plan'] = {'cancel': {'at': k, 'phase': phase, 'how': how, 'from': 'main'}}
                     s['plan']['delay_p'] = rng.choice([0.0, 0.2])
                     cases.append(s)
@@ -80,6 +83,8 @@ def gen_cases(tier, seed):
                 else:
                     s['mode'] = how
                     s['trigger'] = 'immediate'
+                    if how == 'with_exc':
+                        s['with_exc_type'] = rng.choice([None, 'systemexit', 'generatorexit', 'base'])
                     s['plan'] = {'gate': {'match': 't0/cb:on_queued', 'phase': 'before', 'count': 1, 'after_cancel_begin': True}}
                 cases.append(s)
         s = {'seed': rng.randrange(1 << 30), 'min_part': 8, 'config': dict(multipart_threshold=16, multipart_chunksize=8, io_chunksize=4),
